@@ -53,6 +53,9 @@ def cases(tier, seed):
                         if w in ("zero", "int") and (b > 2 or ncomp == 2):
                             continue
                         out.append(dict(type="dyn", kind=kind, d=d, ncomp=ncomp, b=b, weight=w, n_out=2 if ncomp == 3 else 1))
+        # large batches (the mean runs over every row whatever the size: 2049 and 5000 are not multiples of a power of two)
+        for b in ((2049,) if tier == "quick" else (2049, 3000, 5000)):
+            out.append(dict(type="dyn", kind=kind, d=B["dims"][0] if kind != "ode" else 0, ncomp=2, b=b, weight="scalar", n_out=1, big=True))
     out.sort(key=lambda c: (c["type"] != "subset", len(c.get("terms", [])), c["b"]))
     return out
 
@@ -163,7 +166,8 @@ def run_case(case):
     val_eager = float(loss.evaluate(params, batch)[1]["dyn_loss"])  # weights are Python numbers here, traced leaves under jit
     if not close(val_eager, exp, 1e-10):
         v.append(V(site, "dynamic_term_differs_from_batch_mean_weighted_residual_mse(eager)", f"ncomp={ncomp} b={b} weight={case['weight']}: got {val_eager} expected {exp}"))
-    for perm in itertools.permutations(range(b)):
+    perms = itertools.permutations(range(b)) if not case.get("big") else [tuple(range(b))[::-1], tuple(range(1, b)) + (0,)]
+    for perm in perms:
         pb = L.make_batch(case["kind"], pts[list(perm)])
         pv = float(L.jit_eval(loss, params, pb)[1]["dyn_loss"])
         n += 1
